@@ -57,6 +57,7 @@ type VC struct {
 	axiomsDone bool
 	Variant    string
 	FirstIter  []string // replay hints: loop-head state equals the state before the loop
+	locIDs     map[string]string
 	extraHeaps map[string]string
 	extraOrder []string
 }
